@@ -16,6 +16,9 @@ static ALLOC: c15::Counting = c15::Counting;
 
 fn main() {
     let ctx = vmc::report::Ctx::from_args();
+    // logging enabled is part of the environment: statements inside log macros only run when a logger accepts them.
+    // C15 measures cost without trace output (error level only).
+    vmc::install_logger(if ctx.id == "C15" { log::LevelFilter::Error } else { log::LevelFilter::Trace });
     match ctx.id.as_str() {
         "C01" => codec::run_c01(&ctx),
         "C02" => c02::run(&ctx),
